@@ -601,6 +601,36 @@ class Ctx:
   def note(self, s: str):
     self.notes.append(s)
 
+  def include(self, rule: str, text: str, rulefn, *args, min_instances: int = 1):
+    """Runs a rule owned by another property and reports it under `rule`.
+
+    Several properties share a mechanism (e.g. the queue's lock order matters
+    to C04, C05 and C15); the owning rule is evaluated once more in a
+    sub-context and its instances/findings are re-labelled.
+    """
+    self.rule(rule, text)
+    sub = Ctx(self.pid, self.repo, self.tier)
+    try:
+      rulefn(sub, *args)
+    except AnalysisError as e:
+      sub.errors.append(str(e))
+    for e in sub.errors:
+      self.errors.append(f'{rule}: {e}')
+    for f in sub.findings:
+      f2 = Finding(self.pid, rule, f.module, f.qualname, f.construct,
+                   f'[{f.rule}] {f.message}', f.loc, f.witness)
+      if not any(x.key == f2.key for x in self.findings):
+        self.findings.append(f2)
+        self.instances.append(Instance(rule, f.loc, f.construct, 'violated', True, f.message))
+    n = 0
+    for i in sub.instances:
+      if i.verdict == 'holds':
+        n += 1
+        self.instances.append(Instance(rule, i.where, i.what, 'holds', i.nontrivial,
+                                       i.detail))
+    self.functions_analysed |= sub.functions_analysed
+    self.floor(rule, min_instances)
+
 
 # ---------------------------------------------------------------------------
 # Known findings
